@@ -208,10 +208,10 @@ func c19Worker(args []string) {
 				got = conc[g][k]
 			}
 			if got != solo[g][k] {
-				fmt.Printf("DIFF\tgoroutine %d op %d kind %d\talone=%s\tconcurrent=%s\n", g, k, plans[g][k], solo[g][k], got)
+				fmt.Printf("\nDIFF\tgoroutine %d op %d kind %d\talone=%s\tconcurrent=%s\n", g, k, plans[g][k], solo[g][k], got)
 			}
 		}
-		fmt.Printf("OPS\t%d\n", len(solo[g]))
+		fmt.Printf("\nOPS\t%d\n", len(solo[g]))
 	}
 }
 
